@@ -302,7 +302,7 @@ def run(prop, tier):
             nro = 80 if quick else 1200
             for i in range(nro):
                 c = {"kind": "fs", "budget": [0, 300][i % 2], "sepmeta": (i % 4 >= 2), "reopen_ro": True,
-                     "ro_via_config": (i % 8 >= 4)}
+                     "ro_via_config": [False, False, True, "arg_over_config"][(i // 4) % 4]}
                 pre = random_ops(r, 14, weak=False, wd_p=0)     # (the open C05 finding on with-data metadata is not C19's subject)
                 ops = random_ops(r, 25, weak=False)
                 jobs.append({"cfg": c, "pre": pre, "ops": ops, "id": "ro"})
